@@ -221,6 +221,8 @@ def eof_conflate(ctx, lexpr):
     if not names:
         r.anchor_missing("parse::error::ErrorCode")
         return
+    from ..report import load_table
+    exceptions = load_table("eof_exceptions.json")
     nfn = 0
     ninj = 0
     res = {}      # (fn path, site block) -> {"codes": set, "ok": bool, "line": n}
@@ -278,6 +280,12 @@ def eof_conflate(ctx, lexpr):
                         % (fp, ent["line"]), fn.loc(ent["line"]))
             continue
         eofs = {c for c in codes if c.startswith("Eof")}
+        allowed = {c for c in codes if ("%s | eof->%s" % (fp, c)) in exceptions}
+        if allowed and not (codes - allowed - eofs):
+            for c in sorted(allowed):
+                r.ok("%s: end of input -> %s (reviewed: %s)" % (fp, c, exceptions["%s | eof->%s" % (fp, c)]["reason"]), fn, ent["line"])
+            if not eofs:
+                continue
         if eofs:
             extra = codes - eofs
             r.ok("%s: end of input at the read on line %s -> %s%s" % (
